@@ -1,4 +1,206 @@
-From SimRes Require Import ResModel GenResFacts.
+(** C10 -- Result views are consistent functions of states and segment parameters.
+
+    ONLY theorem statements (written out in full), each closed by [exact <lemma>] and followed by
+    [Print Assumptions].  All statements are about [gen_res_facts], the facts REGENERATED from
+    /repo/src/mxlpy/{simulation,model}.py on every run.  Vocabulary (ResModel.v / ResSpec.v):
+    [run_op fx m r o st] = (answer, next state) of one read [o] of result [r] of model [m] when the
+    shared model's parameters and raw_args are [st]; [canon_tables m r] = for each segment the table
+    Model.get_args_time_course computes from that segment's states/times with the model's
+    parameters set to THAT segment's parameter dict; [good_state] = any parameter VALUES whatsoever
+    in the shared model, raw_args empty or filled; [spec_op] = state-free description of a read. *)
+From Coq Require Import List NArith ZArith QArith Bool.
+From MxlBase Require Import ListX.
+From SimRes Require Import ResModel ResFn ResSpec GenResFacts ResProofs.
+Import ListNotations.
+Local Open Scope Z_scope.
+
 Theorem C10_facts_pinned : gen_res_facts = mkResFacts NRFixed true true true true true true true.
 Proof. vm_compute. reflexivity. Qed.
 Print Assumptions C10_facts_pinned.
+
+(** values reported for a time point = the model's values at that point's state and time under the
+    parameters in force during that point's segment, WHATEVER the model's parameter values are
+    when the view is read (they are universally quantified in [good_state]) and whether or not the
+    lazy table was filled before *)
+Theorem C10_view_is_model_value :
+  forall fsem m r pn tbs st f,
+    wf_res r pn -> evaluable fsem m pn -> canon_tables fsem m r = Ok tbs -> good_state pn tbs st ->
+    fst (run_op fsem gen_res_facts m r (OArgs f false NNone) st) =
+    match map_res (select_cols lookups (view_names m pn f)) tbs with
+    | Ok data => VFrames (map qframe data)
+    | Err e => VErr e
+    end.
+Proof. rewrite C10_facts_pinned. exact args_view_is_tables. Qed.
+Print Assumptions C10_view_is_model_value.
+
+(** reported derivatives = the Model's right-hand side (stoichiometry x fluxes, computed coefficients
+    evaluated on the row) of each REPORTED row of values and fluxes, under that segment's parameters.
+    (Full N*v statement with the sum written out: see design/C10.md -- the regrouping of the
+    coefficient dictionaries is validated by the oracle, not proved.) *)
+Theorem C10_rhs_is_model_rhs_partial :
+  forall fsem m r pn tbs st,
+    wf_res r pn -> canon_tables fsem m r = Ok tbs -> good_state pn tbs st ->
+    fst (run_op fsem gen_res_facts m r (ORhs NNone false) st) =
+    match spec_rhs_list fsem m tbs (r_pars r) with
+    | Ok fs => VFrames (map qframe fs)
+    | Err e => VErr e
+    end.
+Proof. rewrite C10_facts_pinned. exact rhs_view_is_model_rhs. Qed.
+Print Assumptions C10_rhs_is_model_rhs_partial.
+
+(** concatenated view = per-segment views stacked in order ([concat0]: indexes and rows appended) *)
+Theorem C10_concat_is_stack :
+  forall fsem m r pn tbs st1 st2 d,
+    wf_res r pn -> evaluable fsem m pn -> canon_tables fsem m r = Ok tbs ->
+    good_state pn tbs st1 -> good_state pn tbs st2 ->
+    (forall f n, fst (run_op fsem gen_res_facts m r (OArgs f false n) st1) = VFrames d ->
+                 fst (run_op fsem gen_res_facts m r (OArgs f true n) st2) = stacked d)
+    /\ (forall dv ro sv n, fst (run_op fsem gen_res_facts m r (OVars dv ro sv false n) st1) = VFrames d ->
+                 fst (run_op fsem gen_res_facts m r (OVars dv ro sv true n) st2) = stacked d)
+    /\ (forall surr n, fst (run_op fsem gen_res_facts m r (OFluxes surr n false) st1) = VFrames d ->
+                 fst (run_op fsem gen_res_facts m r (OFluxes surr n true) st2) = stacked d)
+    /\ (forall n, fst (run_op fsem gen_res_facts m r (ORhs n false) st1) = VFrames d ->
+                 fst (run_op fsem gen_res_facts m r (ORhs n true) st2) = stacked d).
+Proof. rewrite C10_facts_pinned. exact concat_is_stack. Qed.
+Print Assumptions C10_concat_is_stack.
+
+(** reading views repeatedly, in any order, interleaved with parameter edits by the user, from any
+    reachable state: every read returns its state-free specification (induction over read
+    sequences) ... *)
+Theorem C10_every_read_is_its_spec :
+  forall fsem m r pn tbs,
+    wf_res r pn -> evaluable fsem m pn -> canon_tables fsem m r = Ok tbs ->
+    forall os st i o, good_state pn tbs st -> nth_error os i = Some o -> is_view o = true ->
+    nth_error (run_ops fsem gen_res_facts m r os st) i = Some (spec_op fsem m r pn o).
+Proof. rewrite C10_facts_pinned. exact run_ops_nth. Qed.
+Print Assumptions C10_every_read_is_its_spec.
+
+(** ... hence the same read gives the same answer at any position of any two read sequences *)
+Theorem C10_read_order_irrelevant :
+  forall fsem m r pn tbs,
+    wf_res r pn -> evaluable fsem m pn -> canon_tables fsem m r = Ok tbs ->
+    forall os1 os2 st1 st2 i j o,
+      good_state pn tbs st1 -> good_state pn tbs st2 ->
+      nth_error os1 i = Some o -> nth_error os2 j = Some o -> is_view o = true ->
+      nth_error (run_ops fsem gen_res_facts m r os1 st1) i = nth_error (run_ops fsem gen_res_facts m r os2 st2) j.
+Proof. rewrite C10_facts_pinned. exact read_order_irrelevant. Qed.
+Print Assumptions C10_read_order_irrelevant.
+
+(** a freshly returned result is a reachable state whatever values the model's parameters have *)
+Theorem C10_fresh_result_is_good :
+  forall pn tbs cur, map fst cur = pn -> good_state pn tbs (mkSt cur []).
+Proof. exact fresh_is_good. Qed.
+Print Assumptions C10_fresh_result_is_good.
+
+(** a normalised read = [normalise] applied to the frames of the un-normalised read ... *)
+Theorem C10_normalised_view :
+  forall fsem m r pn tbs st1 st2 data,
+    wf_res r pn -> evaluable fsem m pn -> canon_tables fsem m r = Ok tbs ->
+    good_state pn tbs st1 -> good_state pn tbs st2 ->
+    (forall f n, fst (run_op fsem gen_res_facts m r (OArgs f false NNone) st1) = VFrames data ->
+                 fst (run_op fsem gen_res_facts m r (OArgs f false n) st2) = normalised data n)
+    /\ (forall dv ro sv n, fst (run_op fsem gen_res_facts m r (OVars dv ro sv false NNone) st1) = VFrames data ->
+                 fst (run_op fsem gen_res_facts m r (OVars dv ro sv false n) st2) = normalised data n)
+    /\ (forall surr n, fst (run_op fsem gen_res_facts m r (OFluxes surr NNone false) st1) = VFrames data ->
+                 fst (run_op fsem gen_res_facts m r (OFluxes surr n false) st2) = normalised data n)
+    /\ (forall n, fst (run_op fsem gen_res_facts m r (ORhs NNone false) st1) = VFrames data ->
+                 fst (run_op fsem gen_res_facts m r (ORhs n false) st2) = normalised data n).
+Proof. rewrite C10_facts_pinned. exact normalised_view. Qed.
+Print Assumptions C10_normalised_view.
+
+(** ... and [normalise] divides by the scalar, *)
+Theorem C10_normalise_scalar :
+  forall data q, is_zero q = false ->
+    normalise gen_res_facts data (NScalar q) = Ok (map (fun f => div_frame f q) data).
+Proof. rewrite C10_facts_pinned. exact normalise_scalar. Qed.
+Print Assumptions C10_normalise_scalar.
+
+(** by the per-segment factors, *)
+Theorem C10_normalise_per_segment :
+  forall data l, existsb is_zero l = false -> length l = length data ->
+    normalise gen_res_facts data (NList l) = Ok (map (fun fq => div_frame (fst fq) (snd fq)) (combine data l)).
+Proof. rewrite C10_facts_pinned. exact normalise_per_segment. Qed.
+Print Assumptions C10_normalise_per_segment.
+
+(** or by the per-row factors: row k of segment i is divided by factor (rows before segment i) + k
+    (the factors [concat qss] grouped by segment as [qss]).  REFUTED on the snapshot 2b75025 (the
+    branch returned []); holds for the repaired code (fixes/C10-per-row-normalise.diff), see
+    [C10_normalise_per_row_old_code_refuted]. *)
+Theorem C10_normalise_per_row :
+  forall data qss,
+    existsb is_zero (concat qss) = false -> length (concat qss) <> length data ->
+    Forall2 (fun f qs => length qs = length (f_rows f)) data qss ->
+    normalise gen_res_facts data (NList (concat qss))
+    = Ok (map (fun fq => div_rows (fst fq) (snd fq)) (combine data qss)).
+Proof. rewrite C10_facts_pinned. exact normalise_per_row. Qed.
+Print Assumptions C10_normalise_per_row.
+
+Theorem C10_normalise_per_row_old_code_refuted :
+  exists data qss,
+    existsb is_zero (concat qss) = false /\ length (concat qss) <> length data /\
+    Forall2 (fun f qs => length qs = length (f_rows f)) data qss /\ data <> [] /\
+    normalise (mkResFacts NRRebindEmpty true true true true true true true) data (NList (concat qss)) = Ok [].
+Proof.
+  exists [mkFrame [0; 1] [1%N] [[1%Q]; [2%Q]]], [[2%Q; 4%Q]].
+  split; [reflexivity|]. split; [cbn; discriminate|]. split; [repeat constructor|]. split; [discriminate|reflexivity].
+Qed.
+Print Assumptions C10_normalise_per_row_old_code_refuted.
+
+(** producers / consumers.  FULL statement (not provable: the code decides differently): "in every
+    segment the producers of v are exactly the fluxes whose coefficient for v is positive under that
+    segment's parameters at that row's state, scaled by that coefficient on request".
+    PROVED ([_partial]): the view is [spec_prodcons] -- the columns are the reactions whose
+    coefficient is positive (negative) under the FIRST segment's parameters at the model's INITIAL
+    state and time 0, the cells are the (normalised) fluxes of the segment, scaled per segment by the
+    coefficient under that segment's parameters at the initial state -- from every reachable state.
+    This coincides with the full statement when the coefficients of v are numbers or computed from
+    parameters only and keep their sign across segments (guard of the known finding). *)
+Theorem C10_producers_consumers_partial :
+  forall fsem m r pn tbs st (neg : bool) v scaled n conc,
+    wf_res r pn -> evaluable fsem m pn -> canon_tables fsem m r = Ok tbs -> good_state pn tbs st ->
+    fst (run_op fsem gen_res_facts m r (if neg then OConsumers v scaled n conc else OProducers v scaled n conc) st)
+    = spec_prodcons fsem m r pn neg v scaled n conc.
+Proof. rewrite C10_facts_pinned. exact prodcons_is_spec. Qed.
+Print Assumptions C10_producers_consumers_partial.
+
+(** witness: dx/dt = p*v with p = 1 in segment 0 and p = -1 in segment 1; v is listed as a producer
+    of x in segment 1 although its coefficient there is -1 *)
+Definition wit_m : model :=
+  mkModel [(1%N, 1)] [] [(70%N, mkRxn (mkCall 0%N [1%N]) [(1%N, CDyn 0%N [20%N])])] [] [70%N].
+Definition wit_r : simres := mkRes [[(0, [1]); (1, [2])]; [(2, [3])]] [[(20%N, 1)]; [(20%N, -1)]].
+
+Theorem C10_producers_consumers_refuted :
+  exists fs f1,
+    wf_res wit_r [20%N] /\
+    fst (run_op fsemZ gen_res_facts wit_m wit_r (OProducers 1%N false NNone false) (mkSt [(20%N, -1)] [])) = VFrames fs
+    /\ nth_error fs 1 = Some f1 /\ In 70%N (f_cols f1)
+    /\ stoich_of_variable fsemZ wit_m [(20%N, -1)] 1%N = Ok [(70%N, -1)].
+Proof.
+  rewrite C10_facts_pinned. eexists. eexists.
+  split; [split; [repeat constructor; cbn; intuition discriminate|split; [reflexivity|split; [discriminate|repeat constructor]]]|].
+  split; [vm_compute; reflexivity|]. split; [reflexivity|]. split; [left; reflexivity|vm_compute; reflexivity].
+Qed.
+Print Assumptions C10_producers_consumers_refuted.
+
+(** non-vacuity: the hypotheses of the theorems hold for a concrete two-segment result whose
+    parameter changes between the segments, and the read sequence user-edit; rhs; fluxes; rhs gives
+    segment-correct values (flux 2 at t=1 under p=1; derivative -3 at t=2 under p=-1) *)
+Example C10_nonvacuous :
+  wf_res wit_r [20%N] /\ evaluable fsemZ wit_m [20%N] /\
+  (exists tbs, canon_tables fsemZ wit_m wit_r = Ok tbs /\ good_state [20%N] tbs (mkSt [(20%N, 7)] [])) /\
+  run_ops fsemZ gen_res_facts wit_m wit_r [OUserUpd 20%N 5; ORhs NNone true; OFluxes true NNone true; ORhs NNone true]
+          (mkSt [(20%N, 7)] [])
+  = [VUnit;
+     VFrame (mkFrame [0; 1; 2] [1%N] [[1%Q]; [2%Q]; [(-3)%Q]]);
+     VFrame (mkFrame [0; 1; 2] [70%N] [[1%Q]; [2%Q]; [3%Q]]);
+     VFrame (mkFrame [0; 1; 2] [1%N] [[1%Q]; [2%Q]; [(-3)%Q]])].
+Proof.
+  rewrite C10_facts_pinned.
+  split; [split; [repeat constructor; cbn; intuition discriminate|split; [reflexivity|split; [discriminate|repeat constructor]]]|].
+  split.
+  - intros cur Hk. destruct cur as [|[k v] [|? ?]]; try discriminate. cbn in Hk. injection Hk as ->.
+    vm_compute. discriminate.
+  - split; [eexists; split; [vm_compute; reflexivity|split; [reflexivity|left; reflexivity]]|].
+    vm_compute. reflexivity.
+Qed.
+Print Assumptions C10_nonvacuous.
